@@ -85,6 +85,16 @@ EXPLAINS = {
 }
 
 
+def full_events(t):
+    """Re-read the complete log of a trace from the driver's output file."""
+    for line in open(t['src']):
+        if '"id": "%s"' % t['id'] in line or '"id":"%s"' % t['id'] in line:
+            x = json.loads(line)
+            if x['id'] == t['id']:
+                return x['events']
+    return t['head']
+
+
 def run():
     chk = Check('C18', 'model_checking')
     quick = chk.tier == 'quick'
@@ -137,6 +147,12 @@ def run():
     for of in outs:
         for line in open(of):
             t = json.loads(line)
+            # only a summary stays in memory (thorough runs have millions of
+            # events); the head of the log is kept for diagnostics
+            ev = t.pop('events')
+            t['nev'] = len(ev)
+            t['head'] = ev[:40]
+            t['src'] = of
             traces[t['id']] = t
             cur.append(line)
             if len(cur) >= 400:
@@ -186,7 +202,7 @@ def run():
                 mtraces += 1
                 if v['m'] < v['n']:
                     t = traces[v['id']]
-                    e = t['events'][v['m']]
+                    e = full_events(t)[v['m']]
                     chk.note_drift('Controller', '%s %s event %d: %s %s %s' % (
                         v['id'], t['progs'], v['m'] + 1, e['th'], e['k'],
                         e['obj']))
@@ -229,7 +245,7 @@ def run():
                      out=r['out'][-3000:]))
     sample = None
     for t in traces.values():
-        if t['outcome'] == 'done' and len(t['events']) > 30:
+        if t['outcome'] == 'done' and t['nev'] > 30:
             sample = t
             break
     sample = sample or next(iter(traces.values()))
@@ -252,7 +268,7 @@ def run():
         samples=[dict(progs=sample['progs'], schedule=sample['schedule'][:60],
                       outcome=sample['outcome'],
                       events=[[e['th'], e['ev'], e['k'], e['obj']]
-                              for e in sample['events'][:40]])],
+                              for e in sample['head'][:40]])],
     ))
     chk.assumptions += [
         'threading primitives are replaced by scheduler-controlled '
